@@ -213,7 +213,7 @@ WriteRet(lx, call, ev, connsize) ==
              anyUnspec == \E i \in 1..n : ExpectWrite(pre, items[i]).cls = "unspec"
              expected == ApplyTruthy(pre, items, tgs, 1)
          IN IF c1 # "" THEN RetR(c1, lx)
-            ELSE IF anyUnspec \/ Len(lx.svclog) > 0 THEN RetR("", lx)        \* what a refused (part of a) write leaves in memory is not specified
+            ELSE IF anyUnspec \/ Len(lx.svclog) > 0 \/ lx.unspecInj THEN RetR("", lx)        \* what a refused (part of a) write leaves in memory is not specified
             ELSE IF \E x \in 1..Len(lx.xfer) : lx.xfer[x].svc = 83 /\ lx.xfer[x].next >= 0 THEN RetR("C04:write-tiling", lx)
             ELSE IF expected.mem # lx.mem THEN
                  (IF \E k \in 1..Len(lx.mem) : expected.mem[k].b # lx.mem[k].b
